@@ -11,12 +11,12 @@ RULE = ("random reactions of every built-in type (mass action orders 0..4 with r
         "distinct by (case digest); class cells = type x mode x route")
 ASSUMPTIONS = ["reference closed forms in vlib/ref.py", "stochastic falling factorial asserted on integer states when a reactant repeats"]
 RUN_OPTS = {"batch_size": 25, "timeout_per_case": 20.0}
-MINIMA = {"*": {"evaluations": 3000, "nontrivial_evaluations": 1000, "min_cell": 20, "passes_after_history": 50}}
+MINIMA = {"*": {"evaluations": 3000, "nontrivial_evaluations": 1000, "min_cell": 20, "passes_after_history": 50, "cases_with_shared_parameter_dict": 30}}
 
 TYPES = ["massaction0", "massaction1", "massaction2", "massaction3", "massaction4"] + list(gen.HILL)
 
 
-def gen_case(rnd, force_all=False):
+def gen_case(rnd, force_all=False, force_shared=False):
     nsp = rnd.randint(1, 5)
     species = rnd.sample(gen.SPECIES_POOL, nsp)
     params = {}
@@ -47,6 +47,19 @@ def gen_case(rnd, force_all=False):
             if force_all and i == nrx - 1:
                 reac = list(species)
             rxns.append({"type": ty, "reactants": reac, "products": gen.multiset(rnd, species, rnd.randint(0, 2)), "fields": f})
+    # several mass-action reactions written with one shared parameter dictionary (no explicit species string)
+    if force_shared:
+        for r in rxns:
+            if r["type"] == "massaction":
+                r["fields"].pop("species", None)
+        while sum(1 for r in rxns if r["type"] == "massaction") < 2:
+            rxns.append({"type": "massaction", "reactants": gen.multiset(rnd, species, rnd.randint(0, 4)), "products": gen.multiset(rnd, species, rnd.randint(0, 2)),
+                         "fields": {"k": gen.pfield(rnd, "k_x%d" % len(rxns), gen.nice(rnd, 1e-3, 1e3), params)}})
+    ma = [r for r in rxns if r["type"] == "massaction" and "species" not in r["fields"]]
+    if len(ma) >= 2 and (force_shared or rnd.random() < 0.6):
+        for r in ma:
+            r["fields"] = dict(ma[0]["fields"])
+            r["share"] = "g0"
     # evaluation points
     pts = []
     maxm = {}
@@ -80,7 +93,7 @@ def sanitize_subset(cases):
 def generate(tier, seed):
     rnd = util.rng(PROPERTY, tier, seed, "cases")
     n = 400 if tier == "quick" else 12000
-    return [gen_case(rnd, force_all=(i % 3 == 0)) for i in range(n)]
+    return [gen_case(rnd, force_all=(i % 3 == 0), force_shared=(i % 5 == 1)) for i in range(n)]
 
 
 def cls_of(r):
@@ -107,6 +120,8 @@ def run_case(case):
     M = specmod.build_model(case, case["route"])
     S, Sd = ref.stoich(case)
     state = {"pdict": dict(case["params"]), "nontrivial": False}
+    if any(r.get("share") for r in case["reactions"]):
+        C["cases_with_shared_parameter_dict"] += 1
     evaluate_pass(case, M, state, C, cells, viol, S, "")
     if case.get("ops"):
         for op in case["ops"]:
